@@ -8,6 +8,7 @@ package main
 import (
 	"encoding/json"
 	"flag"
+	"fmt"
 	"hash/fnv"
 	"math/rand"
 	"os"
@@ -267,8 +268,18 @@ func runHistory(r *rand.Rand, nProd int, pool bool, undisciplined bool) (op, int
 	}
 	wg.Wait()
 	if pool {
-		// every message was taken by a worker; give the workers time to finish their last job
-		time.Sleep(30 * time.Millisecond)
+		// every message was taken by a worker; wait until the workers have finished their last job:
+		// the aggregate state must be stable over 6 consecutive polls 10 ms apart (at most 3 s)
+		prev, stable := "", 0
+		for k := 0; k < 300 && stable < 6; k++ {
+			time.Sleep(10 * time.Millisecond)
+			cur := fmt.Sprint(p.A.GetNumFlows(), p.A.GetRecords(nil))
+			if cur == prev {
+				stable++
+			} else {
+				prev, stable = cur, 0
+			}
+		}
 		ret := h.clock.Add(1)
 		for _, o := range poolOps {
 			o["ret"] = ret
